@@ -320,6 +320,8 @@ func (b *Reader) ReadSlice(delim byte) (line []byte, err error) {
 	if i := bytes.IndexByte(b.buf[b.r:b.w], delim); i >= 0 {
 		line1 := b.buf[b.r : b.r+i+1]
 		b.r += i + 1
+		b.lastByte = int(delim)
+		b.lastRuneSize = -1
 
 		b.TotalRead += i + 1
 
@@ -334,6 +336,10 @@ func (b *Reader) ReadSlice(delim byte) (line []byte, err error) {
 			b.TotalRead += b.w - b.r
 
 			b.r = b.w
+			if len(line) > 0 {
+				b.lastByte = int(line[len(line)-1])
+			}
+			b.lastRuneSize = -1
 			return line, b.readErr()
 		}
 
@@ -344,8 +350,11 @@ func (b *Reader) ReadSlice(delim byte) (line []byte, err error) {
 		if i := bytes.IndexByte(b.buf[n:b.w], delim); i >= 0 {
 			line := b.buf[0 : n+i+1]
 			b.r = n + i + 1
+			b.lastByte = int(delim)
+			b.lastRuneSize = -1
 
-			b.TotalRead += i + 1
+			// the n bytes buffered before this fill belong to the line too
+			b.TotalRead += n + i + 1
 
 			return line, nil
 		}
@@ -355,6 +364,8 @@ func (b *Reader) ReadSlice(delim byte) (line []byte, err error) {
 			b.TotalRead += len(b.buf)
 
 			b.r = b.w
+			b.lastByte = int(b.buf[len(b.buf)-1])
+			b.lastRuneSize = -1
 			return b.buf, ErrBufferFull
 		}
 	}
@@ -385,6 +396,7 @@ func (b *Reader) ReadLine() (line []byte, isPrefix bool, err error) {
 				panic("bfe_bufio: tried to rewind past start of buffer")
 			}
 			b.r--
+			b.TotalRead--
 			line = line[:len(line)-1]
 		}
 		return line, true, nil
